@@ -1,6 +1,7 @@
 #!/bin/sh
-# Apply every seeded change to /repo in turn, run the quick check of the properties listed for it, undo it, and write
-# seeded/MATRIX.md.  Evidence files are restored afterwards (they must describe the unchanged tree).
+# Apply every seeded change to a SCRATCH copy of /repo (PYVC_REPO; /repo itself is not touched), run the quick check of the
+# properties listed for it, and write seeded/MATRIX.md.  Evidence files are restored afterwards (they must describe the
+# unchanged tree).
 cd /verif
 OUT=seeded/MATRIX.md
 echo "| seed | property it breaks | checks run | result | first failing obligation |" > $OUT
@@ -8,17 +9,21 @@ echo "|---|---|---|---|---|" >> $OUT
 for S in $(ls seeded | grep -v MATRIX); do
   P=$(echo $S | cut -d- -f1)
   EXTRA=""
-  case $S in C09-b) EXTRA="C10";; C02-a) EXTRA="C19";; C02-b) EXTRA="C10";; C05-b) EXTRA="C10";; C03-b) EXTRA="C19";; C07-a|C01-b) EXTRA="C01 C07";; esac
-  git -C /repo apply "/verif/seeded/$S/patch.diff" || { echo "| $S | $P | - | PATCH DOES NOT APPLY | |" >> $OUT; continue; }
+  case $S in C09-b|C09-c) EXTRA="C10";; C02-a|C02-c) EXTRA="C19";; C02-b|C02-d) EXTRA="C10";; C05-b|C05-c) EXTRA="C10";; C03-b|C19-d) EXTRA="C19 C03";; C07-a|C01-b|C07-d) EXTRA="C01 C07";; C10-d) EXTRA="C05";; C14-c) EXTRA="C13";; esac
+  D=$(mktemp -d /tmp/pyvc-seed.XXXXXX)
+  mkdir -p "$D/repo"; cp -r /repo/snaxc /repo/util "$D/repo/"
+  ( cd "$D/repo" && git init -q . 2>/dev/null; git apply --unsafe-paths "/verif/seeded/$S/patch.diff" 2>/dev/null ) || { echo "| $S | $P | - | PATCH DOES NOT APPLY | |" >> $OUT; rm -rf "$D"; continue; }
+  DONE=""
   for Q in $P $EXTRA; do
-    [ "$Q" = "$P" ] || [ -n "$Q" ] || continue
-    R=$(./check "$Q" 2>&1); RC=$?
+    case " $DONE " in *" $Q "*) continue;; esac
+    DONE="$DONE $Q"
+    R=$(PYVC_REPO="$D/repo" ./check "$Q" 2>&1); RC=$?
     FIRST=$(echo "$R" | grep -m1 '^VIOLATION' | sed 's/.*replay=replays\///; s/\.json.*//' | cut -c1-110)
     N=$(echo "$R" | grep -c '^VIOLATION')
     case $RC in 1) RES="caught ($N VIOLATION lines)";; 0) RES="MISSED (exit 0)";; *) RES="exit $RC";; esac
     echo "| $S | $P | $Q | $RES | $FIRST |" >> $OUT
   done
-  git -C /repo checkout -- .
+  rm -rf "$D"
 done
 git checkout -- evidence 2>/dev/null
 rm -f replays/*.json
